@@ -25,7 +25,7 @@ def print_body(body, path):
         elif k == "Y":
             parts.append(f"F{st['f']} && eval(\"var {st['n']} = {val_of(path + i)}; true\")")
         elif k == "S":
-            parts.append(f"out({st['n']})")
+            parts.append(f"out(tier({st['n']}))")
         elif k == "B":
             parts.append("{ var z = 0; " + print_body(st["b"], path + 10 * i) + " }")
     return "; ".join(parts)
@@ -33,7 +33,10 @@ def print_body(body, path):
 
 def to_case(rec, hints, trace):
     p = rec["prog"]
-    setup = ["global F1 = false; global F2 = false"]
+    # tier(): what a lookup site shows - the value, or 801/802 when the name resolved to the function of that name
+    setup = ["global F1 = false; global F2 = false; def tier(int x) { x }; def tier(x) { x() }"]
+    for fn in sorted(p.get("funs", [])):
+        setup.append(f"def {fn}() {{ {801 if fn == 'a' else 802} }}")
     for g in sorted(p["globals"]):
         setup.append(f"global {g} = {901 if g == 'a' else 902}")
     for c in sorted(p["caps"]):
@@ -46,6 +49,8 @@ def to_case(rec, hints, trace):
     arg = "555" if p["nparams"] else ""
     for c in rec["calls"]:
         fl = "; ".join(f"F{f} = {'true' if f in c['flags'] else 'false'}" for f in (1, 2))
+        for gname in sorted(c.get("mk", [])):
+            fl += f"; global {gname} = {901 if gname == 'a' else 902}"
         call = f"L({arg})" if c["kind"] == "free" else f"o.f({arg})"
         steps.append({"op": "eval", "src": f"{fl}; {call}; 0"})
     return {"id": f"{rec['id']}.h{hints}", "to": 20, "hints": hints, "trace": 1 if trace else 0, "steps": steps}
@@ -77,8 +82,8 @@ def shape_of_failure(rec, step, got, hints):
     """a key that names the specific failing layout shape, not just the property"""
     body = "".join(st["k"] + (st["n"] or "") + (str(st["f"]) if st["k"] == "Y" else "") +
                    ("(" + "".join(b["k"] + b["n"] for b in st["b"]) + ")" if st["k"] == "B" else "") for st in rec["prog"]["body"])
-    calls = ",".join(c["kind"][0] + "".join(map(str, c["flags"])) for c in rec["calls"])
-    return f"layout:{body}|g={''.join(sorted(rec['prog']['globals']))}|c={''.join(sorted(rec['prog']['caps']))}|p={rec['prog']['nparams']}|{calls}|h{hints}"
+    calls = ",".join(c["kind"][0] + "".join(map(str, c["flags"])) + ("+g" + "".join(sorted(c.get("mk", []))) if c.get("mk") else "") for c in rec["calls"])
+    return f"layout:{body}|g={''.join(sorted(rec['prog']['globals']))}|fn={''.join(sorted(rec['prog'].get('funs', [])))}|c={''.join(sorted(rec['prog']['caps']))}|p={rec['prog']['nparams']}|{calls}|h{hints}"
 
 
 def run(ck, tier, seed):
@@ -99,11 +104,16 @@ def run(ck, tier, seed):
     work = lib.scratch("c04")
     recs = export("small", 0, 8, work, seed)
     recs += export("random", 1500 if quick else 40000, 8, work, seed)
+    tiers = export("tiers", 0, 4, work, seed)
+    for r in tiers:
+        r["id"] += 50000000
+    recs += tiers
     if quick:
         # the exhaustive family is 62,720 cases; quick replays a seeded third of it, thorough all
         import random
         rnd = random.Random(seed)
         small = [r for r in recs if r["id"] < 1000000]
+        # (the tiers family - 2,304 three-call cases - is always replayed completely)
         keep = set(x["id"] for x in rnd.sample(small, len(small) // 3))
         recs = [r for r in recs if r["id"] >= 1000000 or r["id"] in keep]
     byid = {}
@@ -155,5 +165,5 @@ def run(ck, tier, seed):
     ck.sample({"case": cases[0]["id"], "steps": [s["src"] for s in cases[0]["steps"]], "expected": byid[cases[0]["id"]]["expect"]})
     ck.sample({"case": cases[-1]["id"], "steps": [s["src"] for s in cases[-1]["steps"]], "expected": byid[cases[-1]["id"]]["expect"]})
     ck.assumptions += ["the hint-ignoring switch (hook H2) makes get_object search by name; it is itself compared with the TLA+ by-name reference",
-                       "layout family: names a/h, two flags, one nested block, captures, one parameter, globals (see spec/Layout.tla)"]
+                       "layout family: names a/h, two flags, one nested block, captures, one parameter, globals, functions of the same name and globals created between calls (see spec/Layout.tla)"]
     lib.rm(work)
